@@ -43,7 +43,7 @@ def _check_tmp_create(ctx, s):
     ments = C.all_mentions(lib, lambda ns: ROLE["create_file"] in ns)
     for (b, kind, bb, names, obj) in ments:
         if b is not tr or kind != "call":
-            ctx.violation(["create_file-mention", b.name], "create_file is mentioned outside try_resolve", site=ctx.site(b, bb))
+            ctx.violation(["create_file-mention", b.name], "create_file is mentioned outside try_resolve", site=ctx.site(b, bb), rule="R10.2")
             ok = False
             continue
         pcreate = tr.param_index_by_name("create")
@@ -51,7 +51,7 @@ def _check_tmp_create(ctx, s):
                             and leaf.data == pcreate and v is True)
         if pcreate is None or not C.guarded(tr, bb, cut):
             ctx.violation(["create_file-guard", tr.name], "create_file call is not guarded by the true edge of `create`",
-                          site=ctx.site(tr, bb), witness=C.witness(tr, bb, cut))
+                          site=ctx.site(tr, bb), witness=C.witness(tr, bb, cut), rule="R10.2")
             ok = False
         # the created path is the path that is returned (share_base argument)
         la = {(l.kind, l.bb) for l in C.trace(tr, obj["args"][0])}
@@ -70,10 +70,10 @@ def _check_tmp_create(ctx, s):
             continue
         if b is not wt:
             ctx.violation(["try_resolve-create", b.name], "try_resolve(_, create != false) outside the temp-file writer: "
-                          "a missing path would be created", site=ctx.site(b, bb))
+                          "a missing path would be created", site=ctx.site(b, bb), rule="R10.2")
             ok = False
         elif "Clean" in modes(ctx).site_modes(b, bb):
-            ctx.violation(["try_resolve-create-clean", b.name], "try_resolve(_, create != false) reachable in Clean mode",
+            ctx.violation(["try_resolve-create-clean", b.name], "try_resolve(_, create != false) reachable in Clean mode", rule="R10.2",
                           site=ctx.site(b, bb))
             ok = False
     if ok:
